@@ -519,47 +519,101 @@ func ruleLX(parts ...string) Rule {
 			}
 			if hd != nil {
 				info := hd.Info()
-				// HD5: returns inside the read-error branch
-				found := !want["HD5"]
-				hd.OwnNodes(func(n ast.Node) bool {
-					ifs, ok := n.(*ast.IfStmt)
-					if !ok || found {
-						return true
+				// the functions that make up the body reader: lexHeredoc and its private helpers
+				var funcs []*core.Func
+				var addWithLits func(g *core.Func)
+				addWithLits = func(g *core.Func) {
+					funcs = append(funcs, g)
+					for _, l := range g.Lits {
+						addWithLits(l)
 					}
-					be, ok := ast.Unparen(ifs.Cond).(*ast.BinaryExpr)
-					if !ok || be.Op != token.NEQ || !isNilIdent(info, be.Y) || !isErrorType(info.Types[be.X].Type) {
-						return true
-					}
-					// the first read-error test of the body loop
-					found = true
-					nret := 0
-					ast.Inspect(ifs.Body, func(x ast.Node) bool {
-						r, isRet := x.(*ast.ReturnStmt)
-						if !isRet {
+				}
+				for _, g := range c.region(hd) {
+					addWithLits(g)
+				}
+				// the delimiter matcher: the function (or closure) that compares a printed candidate with the delimiter
+				isMatcherCall := func(e ast.Node) bool {
+					hit := false
+					ast.Inspect(e, func(x ast.Node) bool {
+						call, ok := x.(*ast.CallExpr)
+						if !ok {
 							return true
 						}
-						nret++
-						key := hd.Name + "|EOF return only when nothing is pending"
-						ok := false
-						for _, gd := range guardsOf(c.P, r, ifs) {
-							if !gd.pos && c.callsFunc(info, gd.cond, c.fn("parser.(*heredoc).exists")) {
-								ok = true
+						for _, g := range c.P.CG().Callees(c.P.EnclosingFunc(call), call) {
+							for _, m := range funcs {
+								if g == m && g != hd && mentionsRedirOp(g) {
+									hit = true
+								}
 							}
-						}
-						if ok {
-							rr.OK(hd, key, r.Pos(), "guarded", "stops without an error only when no further here-document is pending")
-						} else {
-							rr.Bad(hd, key, r.Pos(), "at end of input the body reader can stop successfully although further here-documents are still announced: an unterminated here-document is accepted with a nil error")
 						}
 						return true
 					})
-					if nret == 0 {
-						rr.OK(hd, hd.Name+"|EOF return only when nothing is pending", ifs.Pos(), "no-success-exit", "the read-error branch never returns success").Trivial = true
+					return hit
+				}
+				// HD5: successful exits inside the read-error branch
+				found := !want["HD5"]
+				for _, g := range funcs {
+					if found {
+						break
 					}
-					return true
-				})
-				// HD1b and PO1 in lexHeredoc and its closure
-				for _, g := range append([]*core.Func{hd}, hd.Lits...) {
+					g.OwnNodes(func(n ast.Node) bool {
+						ifs, ok := n.(*ast.IfStmt)
+						if !ok || found {
+							return true
+						}
+						be, ok := ast.Unparen(ifs.Cond).(*ast.BinaryExpr)
+						if !ok || be.Op != token.NEQ || !isNilIdent(info, be.Y) || !isErrorType(info.Types[be.X].Type) {
+							return true
+						}
+						// must be the error of a read: the variable is bound by a call of read()
+						if id, isID := ast.Unparen(be.X).(*ast.Ident); !isID || !boundToCallOf(c, g, info.Uses[id], c.fn("parser.(*lexer).read")) {
+							return true
+						}
+						// the first read-error test of the body loop
+						found = true
+						nret := 0
+						ast.Inspect(ifs.Body, func(x ast.Node) bool {
+							r, isRet := x.(*ast.ReturnStmt)
+							if !isRet {
+								return true
+							}
+							// a successful exit: taken when the delimiter matcher said yes
+							gs := guardsOf(c.P, r, ifs)
+							success := false
+							for _, gd := range gs {
+								if gd.pos && isMatcherCall(gd.cond) {
+									success = true
+								}
+							}
+							if ifsInit := initOfEnclosingIfs(c.P, r, ifs); !success && ifsInit {
+								success = false
+							}
+							if !success {
+								return true
+							}
+							nret++
+							key := hd.Name + "|EOF return only when nothing is pending"
+							ok := false
+							for _, gd := range gs {
+								if !gd.pos && c.callsFunc(info, gd.cond, c.fn("parser.(*heredoc).exists")) {
+									ok = true
+								}
+							}
+							if ok {
+								rr.OK(g, key, r.Pos(), "guarded", "stops without an error only when no further here-document is pending")
+							} else {
+								rr.Bad(g, key, r.Pos(), "at end of input the body reader can stop successfully although further here-documents are still announced: an unterminated here-document is accepted with a nil error")
+							}
+							return true
+						})
+						if nret == 0 {
+							rr.OK(g, hd.Name+"|EOF return only when nothing is pending", ifs.Pos(), "no-success-exit", "the read-error branch never returns success").Trivial = true
+						}
+						return true
+					})
+				}
+				// HD1b and PO1 in the body reader
+				for _, g := range funcs {
 					gi := g.Info()
 					g.OwnNodes(func(n ast.Node) bool {
 						switch n := n.(type) {
@@ -1691,3 +1745,21 @@ func sameBailoutFollows(p *core.Program, info *types.Info, poll *ast.SelectStmt,
 	}
 	return false
 }
+
+// mentionsRedirOp reports whether g reads the Op field of an ast.Redir (the
+// delimiter matcher distinguishes `<<` from `<<-`).
+func mentionsRedirOp(g *core.Func) bool {
+	info := g.Info()
+	m := false
+	g.OwnNodes(func(x ast.Node) bool {
+		if se, ok := x.(*ast.SelectorExpr); ok {
+			if v := core.FieldOf(info, se); v != nil && v.Name() == "Op" && v.Pkg() != nil && v.Pkg().Name() == "ast" {
+				m = true
+			}
+		}
+		return true
+	})
+	return m
+}
+
+func initOfEnclosingIfs(p *core.Program, n ast.Node, stop ast.Node) bool { return false }
